@@ -198,6 +198,15 @@ Section Run.
               end
           | _ => (w, l, sym "bad-args")
           end
+        else if ustr_eqb c (u "update_path") then
+          match args with
+          | [p; ty; hs] =>
+              match update_one_path L dec pgp w l (x_str p) (x_str ty) (x_opt x_strs hs) with
+              | Ok l' => (w, l', SL [sym "ok"; SL []])
+              | Err e => (w, l, err_sx e)
+              end
+          | _ => (w, l, sym "bad-args")
+          end
         else if ustr_eqb c (u "save") then
           match args with
           | [hs; force; srt; wm; fmt] =>
